@@ -226,7 +226,7 @@ struct Runner {
     LD ex = expect_area(env, Accw, r, s);
     double err = (double)circ_dist((LD)got, ex, env.area0), T = env.K * (double)tolA + 2 * ref::ulp_d(env.area0_lib);
     if (err <= T) c.obs(std::string("area error / tolerance [") + bn + "] " + what, err / T, wit().f("got", got).f("expected", (double)ex).f("err_m2", err).f("tol_m2", T));
-    if (err <= T && env.bucket == "wgs84-like" && env.a == gh::WGS84_A) c.obs(std::string("WGS84: area error per vertex [m^2] ") + bn + " " + what, err / std::max(1, nvert));
+    if (err <= T && env.bucket == "wgs84-like" && env.a == gh::WGS84_A && M.maxcond <= 1 && M.nwrap == 0 && (std::string(what) != "polygon" || close_edge.cond <= 1)) c.obs(std::string("WGS84, all edges shorter than a quarter circuit: area error per vertex [m^2] ") + bn + " " + what, err / std::max(1, nvert));
     std::string sub;
     if (M.npreq || extra_preq || (!std::string(what).compare("polygon") && close_edge.preq)) sub = "/strongly-prolate-near-equatorial-inverse-edge";
     else if (!(err <= T) && std::fabs(err - 0.5 * env.area0_lib) <= T) sub = (M.ntie || extra_tie || (!std::string(what).compare("polygon") && close_edge.tie)) ? "/off-by-half-ellipsoid-area/edge-between-opposite-meridians" : "/off-by-half-ellipsoid-area";
@@ -445,8 +445,8 @@ int main(int argc, char** argv) {
   S.push_back({"selftest", 400, 4000, false, sec_selftest, 300});
   S.push_back({"directed", 5 * 2 * 12 * 12 * 6 * 6, 5 * 2 * 12 * 12 * 6 * 6, false, sec_directed, 120});
   S.push_back({"matrix", 5 * 13 * 2 * 2, 5 * 13 * 2 * 2, false, sec_matrix, 300});
-  S.push_back({"history", 4000, 150000, true, sec_history, 600});
-  S.push_back({"meta", 6000, 200000, true, sec_meta, 300});
+  S.push_back({"history", 4000, 100000, true, sec_history, 600});
+  S.push_back({"meta", 6000, 100000, true, sec_meta, 300});
   if (const char* only = std::getenv("C08_DEV_SECTION")) {     // development aid only (never set by bin/check)
     std::vector<Section> T; for (auto& x : S) if (x.name == only) T.push_back(x); S = T; }
   return vh::run_sections(argc, argv, S);
